@@ -112,7 +112,7 @@ func mutate(t *rapid.T, y []int, terms []int) []int {
 	}
 }
 
-// DeepInput draws a long token sequence (120-220 tokens) made of a short
+// DeepInput draws a long token sequence (105-150 tokens) made of a short
 // repeated pattern: in grammars with right recursion or bracket nesting it
 // drives the parser stack far beyond its initial capacity.
 func DeepInput(t *rapid.T, c *cfg.CFG) []int {
@@ -121,7 +121,7 @@ func DeepInput(t *rapid.T, c *cfg.CFG) []int {
 		return nil
 	}
 	pat := rapid.SliceOfN(rapid.SampledFrom(terms), 1, 3).Draw(t, "deepPattern")
-	n := rapid.IntRange(120, 220).Draw(t, "deepLen")
+	n := rapid.IntRange(105, 150).Draw(t, "deepLen")
 	out := make([]int, 0, n+4)
 	for len(out) < n {
 		out = append(out, pat...)
